@@ -1411,7 +1411,7 @@ class SliceSubsetState(SubsetState):
                 slices = [self.slices[idx] for idx in order]
 
         if (isinstance(view, np.ndarray) or
-                (isinstance(view, (tuple, list)) and isinstance(view[0], np.ndarray))):
+                (isinstance(view, (tuple, list)) and any(isinstance(v, np.ndarray) for v in view))):
             mask = np.zeros(data.shape, dtype=bool)
             mask[tuple(slices)] = True
             return mask[view]
@@ -1427,7 +1427,9 @@ class SliceSubsetState(SubsetState):
                     subslices.append(slices[i])
                 elif np.isscalar(view[i]):
                     beg, end, stp = slices[i].indices(data.shape[i])
-                    if view[i] < beg or view[i] >= end or (view[i] - beg) % stp != 0:
+                    # an index counted from the end
+                    idx = view[i] + data.shape[i] if view[i] < 0 else view[i]
+                    if idx < beg or idx >= end or (idx - beg) % stp != 0:
                         return np.broadcast_to(False, shape)
                 elif isinstance(view[i], slice):
                     if view[i].step is not None and view[i].step < 0:
